@@ -239,7 +239,11 @@ class ReferenceCache:
         if not any(block.references) and block not in self._references:
             # No direct or indirect references, so nothing to retarget.
             return
-        assert to_block
+        if to_block is None:
+            # Only legal for a block without references. Its tree may still
+            # hold nodes that set_referent or get_referent have emptied.
+            assert not any(self.get_references(block))
+            return
 
         # Get indirect references and detach them from the block.
         if block in self._references:
